@@ -127,3 +127,22 @@ pub fn identifiers(req: &Value) -> Value {
     let v: Vec<Value> = ex.find_all(&content).iter().map(|(a, b, s)| json!([a, b, hex(s.as_bytes())])).collect();
     json!({"ok": v})
 }
+
+/// AmbiguityResolver::resolve on (matched text, replacement, file name, file content, line, column):
+/// the style it picks, how, and whether that style is compatible with the matched text (the contract)
+pub fn resolve(req: &Value) -> Value {
+    use renamify_core::ambiguity::{AmbiguityContext, AmbiguityResolver};
+    let Some(m) = str_field(req, "matched") else { return json!({"skip": "utf8"}) };
+    let Some(r) = str_field(req, "replacement") else { return json!({"skip": "utf8"}) };
+    let ctx = AmbiguityContext {
+        file_path: str_field(req, "file").map(std::path::PathBuf::from),
+        file_content: str_field(req, "content"),
+        line_content: str_field(req, "line"),
+        match_position: req["column"].as_u64().map(|x| x as usize),
+        project_root: None,
+    };
+    let res = AmbiguityResolver::new().resolve(&m, &r, &ctx);
+    let compatible = renamify_core::case_constraints::can_match_style(&m, res.style);
+    let any = !renamify_core::case_constraints::filter_compatible_styles(&m, &Style::all_styles()).is_empty();
+    json!({"ok": {"style": format!("{:?}", res.style), "method": format!("{:?}", res.method), "compatible": compatible, "some_compatible": any}})
+}
